@@ -151,6 +151,11 @@ func execGit(c gcase, seed int64, o obs, report func(sym, trigger, what string, 
 	// precondition (reference model): HEAD holds exactly the expected pointer blobs
 	for _, f := range files {
 		blob := env.PlainGit(origin, "cat-file", "blob", "HEAD:"+f.Path)
+		if f.Kind == "lookalike-content" && (!blob.OK() || !bytes.Equal(blob.Stdout, f.Blob)) {
+			// content that merely begins like a pointer must be stored in full: C08's own subject
+			report("lookalike-not-stored-in-full", fmt.Sprintf("git-%s/origin-add/%s", c.FilterMode, f.Path), fmt.Sprintf("git add of %s (%d bytes beginning with a pointer text) committed %q instead of the pointer to the full content %q", f.Path, len(f.Wt), sbx.Trunc(blob.Stdout, 300), sbx.Trunc(f.Blob, 300)), nil)
+			return
+		}
 		if !blob.OK() || !bytes.Equal(blob.Stdout, f.Blob) {
 			inconclusive(fmt.Sprintf("git case %d: origin blob of %s is not the expected pointer (C01's subject)", c.Idx, f.Path))
 			return
